@@ -53,3 +53,12 @@ Check C13_cyclic_deadlock : exists prog progs sched,
 Check C13_chain_table : cache_chain_per_thread = true.
 Check (eq_refl : C13_full_statement = conc_full_statement).
 Check (eq_refl : conc_full_statement = (forall c prog fuel, conc_statement c prog (fun ty r => fst (get no_cache prog fuel [] ty r init)))).
+Check C13_serving_cached_errors_refuted : forall k : N, In k error_kinds ->
+  let serve := fun e : N => e =? k in
+  let prog := kind_prog k in
+  let c := mkCcfg true true true in
+  let g := fold_left (step_gen c prog serve) [0; 0; 1; 1; 0; 0; 0; 1; 1; 1; 1; 1]%nat (ginit [[(1, 3)]; [(2, 3)]]) in
+  acyclic prog (fun _ => O) /\ finished g 1%nat = true /\
+  results (threads g 1%nat) = [Err k] /\ fst (get no_cache prog 2 [] 2 3 init) = Ok 7.
+Check (eq_refl : step = fun c prog => step_gen c prog (fun _ => false)).
+Check (eq_refl : error_kinds = [1; 2; 3; 4; 5; 6; 7; 8; 9; 10; 11]).
